@@ -2,6 +2,7 @@
    This file holds only the property theorems; proofs are in Proofs_BlockImport.v. *)
 From Coq Require Import Sorting.Permutation.
 From Goloop Require Import lib.Bytes lib.GoInt Model_BlockImport Proofs_BlockImport.
+From Goloop Require Import Link_C07.
 Open Scope Z_scope.
 
 (* verifyNewBlock accepts exactly the candidates that extend the parent *)
@@ -108,3 +109,17 @@ Theorem C07_median_wraps :
   median [4611686018427387904; 4611686018427387904] = -4611686018427387904.
 Proof. exact median_wraps. Qed.
 Print Assumptions C07_median_wraps.
+
+(* ---- kernel link (Link_C07.v).  enoughVote is re-generated from
+   consensus/commitvotelist.go on every run (tools/go2coq); enough_vote of the model,
+   used by votes_ok in the theorems above, IS the test of the current Go code for every
+   number of voters a Go slice can have (0 <= voters <= 2^62-1) ---- *)
+Theorem C07_kernel_enoughVote : forall voted voters,
+  0 <= voters <= 4611686018427387903 ->
+  enough_vote voted voters = enoughVote voted voters.
+Proof. exact enough_vote_is_enoughVote. Qed.
+Print Assumptions C07_kernel_enoughVote.
+
+Theorem C07_kernel_params : Link_C07.kernel_params_pinned.
+Proof. exact Link_C07.kernel_params_ok. Qed.
+Print Assumptions C07_kernel_params.
